@@ -28,6 +28,7 @@ def scenario(args):
     lp = link.LinkPair(cfg, tx_lite=tx_lite, rx_lite=rx_lite, tx_spidev=not tx_lite and seed % 2 == 0,
                        rx_spidev=not rx_lite and seed % 3 == 0, seed=seed)
     peer = cfg.get("peer", "listening")
+    lp.peer_ok = peer == "listening"
     if peer == "deaf":
         lp.rx.listen = False
     elif peer == "full":
